@@ -3,7 +3,7 @@ import re
 
 from ..cfg import Renderer, walk, show, branches, guards_of, flat_guards, matches_conj
 from ..facts import callee_names, short
-from ..util import view, crate_fns, root_name, field_writes, expr_calls, expr_vars
+from ..util import view, crate_fns, root_name, field_writes, expr_calls, expr_vars, expr_fields
 from . import c06
 
 EXPLANATION = (
@@ -81,6 +81,8 @@ def run(prog, rep, tier):
     r4 = rep.rule("R15.4", "removal mutators test peer_still_has_path and decrement the session counter")
     check_counter_pairing(prog, r4)
 
+    r6 = rep.rule("R15.6", "bulk removers subtract from `accepted` exactly the entries they remove that were not filtered")
+    check_bulk_accepted(prog, r6)
     r5 = rep.rule("R15.5", "stats.accepted / received deltas in Table::insert and Table::remove agree with the recount under every filtered/replaced combination")
     check_stat_table(prog, r5)
 
@@ -147,7 +149,25 @@ def check_limit(prog, r):
         txt = " & ".join("%s∈%s" % (show(g, 60), sorted(l)) for g, l, h in gs)
         new_ok = any(_is_new_guard(ins, g, l, brs) for g, l, h in gs)
         limit_ok = any(g[0] == "bin" and any(c.endswith("Atomic::<u64>::load") for c in expr_calls(g)) for g, l, h in gs)
-        if new_ok and limit_ok:
+        # the decrement side (remove / drop_*) un-counts a prefix whenever the peer's last path for it goes, whatever that path's
+        # flags were; so the increment may depend on nothing but "new prefix for the peer", the limit being configured and the
+        # limit test -- any further condition (filtered, stale, ..) makes the two sides disagree and the counter drifts or underflows
+        extra = []
+        for g, l, h in gs:
+            if _is_new_guard(ins, g, l, brs):
+                continue
+            vs = set(expr_vars(g))
+            if any(c.endswith("Atomic::<u64>::load") for c in expr_calls(g)) or "prefix_limit" in vs:
+                continue
+            if vs and vs <= {"replaced", "replaced_idx", "peer_has_path", "iter", "is_new"}:
+                continue            # parts of the is_new derivation (the scan loop, the replaced entry)
+            if g[0] == "discr" and any(c.endswith("Iterator::next") for c in expr_calls(g)):
+                continue            # leaving the scan loop
+            extra.append("%s∈%s" % (show(g, 50), sorted(l)))
+        if new_ok and limit_ok and extra:
+            r.fail(ins.name, "increment-guard-extra", "the limit counter is incremented only when additionally %s; the removal side decrements it for the last path of any "
+                   "prefix regardless, so the counter drifts below the recount (and underflows on withdraw)" % " & ".join(extra)[:200], ins.loc(bi))
+        elif new_ok and limit_ok:
             r.ok("insert: fetch_add guarded by is_new and by the limit test (%s)" % txt[:160])
         else:
             r.fail(ins.name, "increment-guard", "the limit counter is incremented off the 'new prefix and below limit' path (guards: %s)" % txt[:200], ins.loc(bi))
@@ -523,3 +543,106 @@ def check_stat_table(prog, r):
         else:
             r.fail(prog.name(k), "accepted-decrement-condition", "stats.accepted is changed by %s under %s, not by -1 exactly when the removed entry was unfiltered"
                    % (d, " & ".join("%s∈%s" % (show(g, 50), sorted(l)) for g, l, h in gs)[:200]), fv.loc(bi))
+
+
+def _entry_atom(e, labels, fvx):
+    """Conditions of a closure over one RibEntry: its flag accessors and the comparison with the peer address."""
+    lab = set(labels)
+    if len(lab) != 1 or not lab <= {"true", "false"}:
+        return None
+    t_ = lab == {"true"}
+    while e[0] in ("ref", "deref"):
+        e = e[1]
+    if e[0] == "un" and e[1] == "Not":
+        a = _entry_atom(e[2], {"true"}, fvx)
+        return None if a is None else (a[0], a[1] != t_)
+    if e[0] == "call" and re.search(r"rustybgp_table::RibEntry::is_\w+$", e[1]):
+        return (e[1].split("::")[-1], t_)
+    if e[0] == "call" and re.search(r"(^|::)(rustybgp_\w+::)?(\w+::)?(is|has)_\w+$", e[1]) and not e[1].startswith(("std::", "core::", "alloc::")) \
+            and set(expr_vars(e)) <= {fvx.local_name.get(l) for l in range(2, fvx.f.get("argc", 0) + 1)}:
+        return ("::".join(e[1].split("::")[-2:]), t_)       # another pure flag of the entry (its source, its attributes)
+    if e[0] == "call" and re.search(r"cmp::PartialEq(::<.*>)?::(eq|ne)$", e[1]) and "remote_addr" in expr_fields(e):
+        return ("peer", t_ == e[1].endswith("eq"))
+    if e[0] == "bin" and e[1] in ("Eq", "Ne") and "remote_addr" in expr_fields(e):
+        return ("peer", t_ == (e[1] == "Eq"))
+    return None
+
+
+def _table_of(rws, universe):
+    """Total function valuation -> result from path rows (None where rows disagree or none applies)."""
+    import itertools
+    tab = {}
+    for vals in itertools.product([False, True], repeat=len(universe)):
+        v = dict(zip(universe, vals))
+        res = {r_ for f_, r_, u_ in rws if all(v[a] == x for a, x in f_.items())}
+        tab[vals] = res.pop() if len(res) == 1 else None
+    return tab
+
+
+def check_bulk_accepted(prog, r):
+    """drop_stale / drop_llgr_stale / drop_no_llgr purge a peer's paths with Vec::retain and subtract the number of purged
+    *accepted* paths from route_stats.accepted.  `accepted` is maintained on the filtered flag alone (Table::insert / remove,
+    R15.5), so that number must be |{e : retain drops e and not e.is_filtered()}| -- the counting closure's truth table over the
+    entry's flags must equal (not retain-predicate) and not is_filtered."""
+    from .. import predicates
+    n = 0
+    for k in crate_fns(prog, "rustybgp_table"):
+        ix = prog.ix[k]
+        if ix["kind"] not in ("fn", "method") or not ix["name"].startswith("rustybgp_table::Table::"):
+            continue
+        bodies = list(prog.with_closures(k))
+        if not any(field_writes(view(prog, b), "accepted") for b in bodies):
+            continue
+        retains, counts = [], []
+        for b in bodies:
+            fv = view(prog, b)
+            rend = Renderer(fv, depth=6)
+            for bi, t in fv.calls(re.compile(r".*(Vec::<T, A>::retain|Iterator::filter)$")):
+                ga = t["f"].get("ga", "")
+                if "RibEntry" not in ga:
+                    continue
+                cl = [x[2] for a in t["args"][1:] for x in walk(rend.operand(a, 6)) if isinstance(x, tuple) and x and x[0] == "agg" and str(x[1]).startswith("closure")]
+                if len(cl) != 1:
+                    continue
+                ck = [kk for kk in prog.ix if kk.endswith(str(cl[0])) or str(cl[0]).endswith(kk)]
+                if not ck:
+                    continue
+                (retains if t["f"]["name"].endswith("retain") else counts).append((ck[0], fv, bi))
+        if not retains:
+            continue            # single-path mutators (insert / remove) are R15.5's
+        n += 1
+        r.analysed(ix["name"])
+        where = short(ix["name"])
+        if len(retains) != 1 or len(counts) != 1:
+            r.unanalysable("%s: %d retain / %d filter closures over the path list (want 1 / 1)" % (where, len(retains), len(counts)), view(prog, k).loc())
+            continue
+        rr, rfv = predicates.rows(prog, retains[0][0], _entry_atom)
+        cr, cfv = predicates.rows(prog, counts[0][0], _entry_atom)
+        if rr is None or cr is None:
+            r.unanalysable("%s: predicate has too many paths" % where, view(prog, k).loc())
+            continue
+        unk = sorted({u[0] for rws in (rr, cr) for f_, res_, us in rws for u in us})
+        if unk or any(res_ is None for rws in (rr, cr) for f_, res_, us in rws):
+            r.unanalysable("%s: condition over the entry not recognised: %s" % (where, unk[:2]), cfv.loc())
+            continue
+        uni = sorted({a for rws in (rr, cr) for f_, res_, us in rws for a in f_} | {"is_filtered"})
+        tr, tc = _table_of(rr, uni), _table_of(cr, uni)
+        bad = None
+        for vals, kept in tr.items():
+            v = dict(zip(uni, vals))
+            want = (not kept) and not v["is_filtered"] if kept is not None else None
+            if want is None or tc[vals] is None:
+                bad = ("undecided", v, None)
+                break
+            if tc[vals] != want:
+                bad = ("mismatch", v, tc[vals])
+                break
+        if bad is None:
+            r.ok("%s: counted for `accepted` = removed by retain and not filtered (atoms %s)" % (where, ",".join(uni)))
+        elif bad[0] == "undecided":
+            r.unanalysable("%s: predicates not total over %s" % (where, uni), cfv.loc())
+        else:
+            v = bad[1]
+            r.fail(ix["name"], "bulk-accepted-count", "an entry with %s is %s by retain but is %s in the number subtracted from route_stats.accepted: peer_stats drifts from the recount"
+                   % (", ".join("%s=%s" % (a, v[a]) for a in uni), "kept" if tr[tuple(v[a] for a in uni)] else "removed", "counted" if bad[2] else "not counted"), cfv.loc())
+    r.floor("bulk removers with a retain over the path list", n, 3)
